@@ -6,7 +6,7 @@ from typing import Dict, List, Optional, Set
 
 from ..cfg import cfg_of
 from ..facts import emission_sites, value_set
-from ..model import AnalysisError, Fn, ancestors, parent, text, walk_fn
+from ..model import AnalysisError, Undecided, Fn, ancestors, parent, text, walk_fn
 from .c05 import _cfg_node_of_expr
 
 DEBUG = {"attr": "debug"}          # name of the Context attribute that holds the -d level (found by discover_flags)
@@ -402,7 +402,7 @@ class _Runs:
         o = run_main(self.prog, tree or TREE, cli)
         self.n += 1
         if o.unsupported:
-            raise AnalysisError(f"__main__ is outside the evaluable subset: {o.unsupported} (command line {cli})")
+            raise Undecided(f"__main__ is outside the evaluable subset: {o.unsupported} (command line {cli})")
         return o
 
 
@@ -492,7 +492,7 @@ def rule_R(run, prog):
         if any(x != snaps[0] for x in snaps):
             bad = bad or "another attribute of the Context depends on added_value"
     except Unsupported as e:
-        raise AnalysisError(f"Context.__init__ is outside the evaluable subset: {e}")
+        raise Undecided(f"Context.__init__ is outside the evaluable subset: {e}")
     run.ob("R-16.2", f"{ci.key}::added_value", bad is None,
            f"added_value is used for more than the 'CheckDefine' membership test stored in preproc.skip_define: {bad}", ci.node)
     readers = []
@@ -679,7 +679,7 @@ def rule_presentation_options(run, prog):
             try:
                 c = w.ev.call_value(w.ev.resolve_global("error_color", cm), [m.group("code")], {})
             except Exception as e:          # noqa: BLE001
-                raise AnalysisError(f"colors.error_color is outside the evaluable subset: {e}")
+                raise Undecided(f"colors.error_color is outside the evaluable subset: {e}")
             exp_lines.append(m.group("head") + (f"\x1b[{c}m{m.group('text')}\x1b[0m" if c else m.group("text")))
         else:
             exp_lines.append(ln)
@@ -769,7 +769,7 @@ def rule_views(run, prog):
                 if outs[0] != outs[2]:
                     bad = bad or "rendering twice gives two different texts"
         except Unsupported as e:
-            raise AnalysisError(f"formatter {c.name} is outside the evaluable subset: {e}")
+            raise Undecided(f"formatter {c.name} is outside the evaluable subset: {e}")
         run.ob("R-16.4", f"{c.key}::view", bad is None, f"a formatter modifies what it reports: {bad}", c.node)
 
 
@@ -837,7 +837,7 @@ def rule_pipeline(run, prog):
     except Raised as r:
         bad = f"File(...) raises {r.value!r}"
     except Unsupported as e:
-        raise AnalysisError(f"File.__init__ is outside the evaluable subset: {e}")
+        raise Undecided(f"File.__init__ is outside the evaluable subset: {e}")
     run.ob("R-16.5", f"{fi.key}::derivation", bad is None, f"File.__init__ derives its fields otherwise: {bad}", fi.node)
     bad = None
     # (no CR: reading a file translates line ends, which the pinned tree does as well)
